@@ -34,9 +34,9 @@ PROP = dict(
     jobs=dict(
         quick=[
             job("sweep", "^TestVerifC18RefWeight$", ["TestVerifC18RefWeight"], 1, shards=1),
-            job("sweep", "^TestVerifC18FeeFunction$", ["TestVerifC18FeeFunction"], 20000, shards=2),
-            job("sweep", "^TestVerifC18Publisher$", ["TestVerifC18Publisher"], 6000, shards=4),
-            job("sweep", "^TestVerifC18Aggregator$", ["TestVerifC18Aggregator"], 4000, shards=4),
+            job("sweep", "^TestVerifC18FeeFunction$", ["TestVerifC18FeeFunction"], 40000, shards=2),
+            job("sweep", "^TestVerifC18Publisher$", ["TestVerifC18Publisher"], 12000, shards=4),
+            job("sweep", "^TestVerifC18Aggregator$", ["TestVerifC18Aggregator"], 8000, shards=4),
         ],
         thorough=[
             job("sweep", "^TestVerifC18RefWeight$", ["TestVerifC18RefWeight"], 1, shards=1),
